@@ -410,6 +410,11 @@ def q_address(env, name=None):
         ctx.p1 = z3.BitVec("p1", 8)
         ctx.h, harr = arr_bytes("addr_hash", 20, ctx)
         ctx.c, carr = arr_bytes("addr_checksum", 4, ctx)
+        # address values come from the constructors only: the stored checksum is the checksum of (prefix, hash); the native replay starts
+        # from from_pubkey_hash (prefix 0x00)
+        for got_c, want_c0 in zip(ctx.c, checksum(ctx.p0, ctx.h)):
+            ctx.assumptions.append(got_c == want_c0)
+        ctx.assumptions.append(ctx.p0 == 0)
         chain = mk_struct(P, "ChainParams", p2pkh=Int(ctx.p1, "u8"), p2sh=Int(z3.BitVec("p2sh", 8), "u8"), privkey=Int(z3.BitVec("privkey", 8), "u8"),
                           xpub=Int(z3.BitVec("xpub", 32), "u32"), xpriv=Int(z3.BitVec("xpriv", 32), "u32"), magic=Int(z3.BitVec("magic", 32), "u32"))
         return f, [Ptr([Struct("P2PKHAddress", [Int(ctx.p0, "u8"), harr, carr])], 0), Ptr([chain], 0)], ctx
@@ -434,7 +439,7 @@ def q_address(env, name=None):
                 if any(not (v.get("ok") or {}).get("reparsed_equal", False) for v in nat.values()):
                     qr.violations.append(item)
                 else:
-                    qr.undecided.append("set_chain_params: field deviation found by the solver is not observable through to_string/from_string round trip")
+                    qr.undecided.append(f"set_chain_params: field deviation found by the solver (new prefix {pv:#04x}, hash {hv.hex()}) is not observable through to_string/from_string round trip")
             prove(r.pc, [(p, r.ctx.p1)] + list(zip(h, r.ctx.h)) + list(zip(c, want_c)), "set_chain_params", qr, replay)
         finish(qr, ex)
     except Unsupported as e:
